@@ -621,26 +621,28 @@ theorem mapM_cons_ok {α β : Type} {f : α → Except Fail β} {a : α} {as : L
   exact ⟨b, bs', hb, hbs, rfl⟩
 
 theorem initItem_wide_dirty {g : Nat} {root : Ty} {top : Bool} {obj : Init} {paths : List (List Nat)} {toks : List ITok} {fl : Flags}
-    {res : Result} (hw : 1 < paths.length) (hr : initItem g root top obj paths toks fl = .ok res) : res.fl.clean = false := by
+    {res : Result} (hw : 1 < paths.length) (hns : siblings paths = false)
+    (hr : initItem g root top obj paths toks fl = .ok res) : res.fl.clean = false := by
   cases hc : res.fl.clean with
   | false => rfl
   | true =>
     exfalso
-    unfold initItem initItemWith at hr
-    split at hr
-    · simp at hw
-    · split at hr
+    cases paths with
+    | nil => simp at hw
+    | cons p0 rest =>
+      have hw' : 0 < rest.length := by simpa using hw
+      unfold initItem initItemWith at hr
+      simp only at hr
+      split at hr
       · obtain ⟨_, _, hr⟩ := bind_eq_ok hr
         obtain ⟨_, _, hr⟩ := bind_eq_ok hr
         obtain ⟨_, _, hr⟩ := bind_eq_ok hr
         have := (Flags.clean_mk (Flags.clean_join (Flags.clean_join (initList_clean _ _ _ _ _ _ _ _ _ hr hc)).1).2).2.2
-        simp only [gt_iff_lt, decide_eq_false_iff_not] at this
-        exact this hw
+        simp [hns, hw'] at this
       · obtain ⟨_, _, hr⟩ := bind_eq_ok hr
         obtain ⟨_, _, hr⟩ := bind_eq_ok hr
         have := (Flags.clean_mk (Flags.clean_join (initList_clean _ _ _ _ _ _ _ _ _ hr hc)).2).2.2
-        simp only [gt_iff_lt, decide_eq_false_iff_not] at this
-        exact this hw
+        simp [hns, hw'] at this
       · cases hr
 
 theorem initItem_xover_dirty {g : Nat} {root : Ty} {top : Bool} {obj : Init} {paths : List (List Nat)} {toks : List ITok} {fl : Flags}
@@ -670,13 +672,179 @@ theorem initItem_xover_dirty {g : Nat} {root : Ty} {top : Bool} {obj : Init} {pa
         simp [hx p0 (by simp) s] at this
       · cases hr
 
-theorem afterDesg_wide_dirty {g : Nat} {root : Ty} {top : Bool} {obj : Init} {fl : Flags} {f : Nat} {ps : List (List Nat)}
-    {toks : List ITok} {res : Result} (hw : 1 < ps.length)
-    (hr : afterDesg g root top obj fl (desigPaths root top f ps toks) = .ok res) : res.fl.clean = false := by
+mutual
+  theorem findMember_ne_nil : ∀ (t : Ty) (n : String), findMember t n ≠ some []
+    | .struct ms _ _, n => by rw [findMember]; exact findMemberMs_ne_nil ms n 0
+    | .union ms _ _, n => by rw [findMember]; exact findMemberMs_ne_nil ms n 0
+    | .scalar _ _, _ => by simp [findMember]
+    | .array _ _, _ => by simp [findMember]
+    | .inc _, _ => by simp [findMember]
+  theorem findMemberMs_ne_nil : ∀ (ms : Members) (n : String) (i : Nat), findMemberMs ms n i ≠ some []
+    | [], _, _ => by simp [findMemberMs]
+    | (mi, t) :: r, n, i => by
+      rw [findMemberMs]
+      split
+      · split
+        · simp
+        · exact findMemberMs_ne_nil r n (i+1)
+      · split
+        · simp
+        · exact findMemberMs_ne_nil r n (i+1)
+end
+
+/-- paths that differ before position `m + 1` and all go beyond it -/
+def Spread (m : Nat) (ps : List (List Nat)) : Prop :=
+  (∀ q ∈ ps, m + 1 ≤ q.length) ∧ ∃ q1 ∈ ps, ∃ q2 ∈ ps, q1.take (m + 1) ≠ q2.take (m + 1)
+
+theorem take_append_of_le {α : Type} (a b : List α) (n : Nat) (h : n ≤ a.length) : (a ++ b).take n = a.take n := by
+  rw [List.take_append_of_le_length h]
+
+theorem Spread.map_append {m : Nat} {ps : List (List Nat)} (h : Spread m ps) (x : List Nat) : Spread m (ps.map (· ++ x)) := by
+  obtain ⟨h1, q1, hq1, q2, hq2, hne⟩ := h
+  refine ⟨fun q hq => ?_, q1 ++ x, List.mem_map_of_mem hq1, q2 ++ x, List.mem_map_of_mem hq2, ?_⟩
+  · simp only [List.mem_map] at hq
+    obtain ⟨q0, hq0, rfl⟩ := hq
+    have := h1 q0 hq0
+    simp; omega
+  · rw [take_append_of_le _ _ _ (h1 q1 hq1), take_append_of_le _ _ _ (h1 q2 hq2)]
+    exact hne
+
+theorem Spread.flatMap_range {m : Nat} {ps : List (List Nat)} (h : Spread m ps) (a n : Nat) (hn : 1 ≤ n) :
+    Spread m (ps.flatMap (fun p => (List.range' a n).map (fun k => p ++ [k]))) := by
+  obtain ⟨h1, q1, hq1, q2, hq2, hne⟩ := h
+  have hmem : ∀ q ∈ ps, q ++ [a] ∈ ps.flatMap (fun p => (List.range' a n).map (fun k => p ++ [k])) := by
+    intro q hq
+    simp only [List.mem_flatMap, List.mem_map, List.mem_range']
+    exact ⟨q, hq, a, ⟨0, by omega, by simp⟩, rfl⟩
+  refine ⟨fun q hq => ?_, q1 ++ [a], hmem q1 hq1, q2 ++ [a], hmem q2 hq2, ?_⟩
+  · simp only [List.mem_flatMap, List.mem_map] at hq
+    obtain ⟨q0, hq0, k, _, rfl⟩ := hq
+    have := h1 q0 hq0
+    simp; omega
+  · rw [take_append_of_le _ _ _ (h1 q1 hq1), take_append_of_le _ _ _ (h1 q2 hq2)]
+    exact hne
+
+/-- spread paths stay spread under further designators, and one more designator makes every path longer -/
+theorem desigPaths_spread (root : Ty) (top : Bool) (m : Nat) : ∀ (f : Nat) (ps : List (List Nat)) (toks : List ITok)
+    (ps' : List (List Nat)) (t' : List ITok), desigPaths root top f ps toks = .ok (ps', t') → Spread m ps →
+    Spread m ps' ∧ (isDesg toks = true → ∀ q ∈ ps', m + 2 ≤ q.length)
+  | 0, _, _, _, _, h, _ => by cases h
+  | f+1, ps, toks, ps', t', h, hsp => by
+    have longer : ∀ {qs : List (List Nat)} {r : List ITok}, desigPaths root top f qs r = .ok (ps', t') → Spread m qs →
+        (∀ q ∈ qs, m + 2 ≤ q.length) → Spread m ps' ∧ (isDesg toks = true → ∀ q ∈ ps', m + 2 ≤ q.length) := by
+      intro qs r hx hs hl
+      obtain ⟨h1, _⟩ := desigPaths_spread root top m f qs r ps' t' hx hs
+      refine ⟨h1, fun _ q hq => ?_⟩
+      obtain ⟨_, h2⟩ := desigPaths_inv root top f qs r ps' t' hx
+      obtain ⟨p, hp, s, rfl⟩ := h2 q hq
+      have := hl p hp
+      simp; omega
+    have mapc : ∀ (x : List Nat) (r : List ITok), 1 ≤ x.length → desigPaths root top f (ps.map (· ++ x)) r = .ok (ps', t') →
+        Spread m ps' ∧ (isDesg toks = true → ∀ q ∈ ps', m + 2 ≤ q.length) := by
+      intro x r hx hh
+      refine longer hh (hsp.map_append x) (fun q hq => ?_)
+      simp only [List.mem_map] at hq
+      obtain ⟨q0, hq0, rfl⟩ := hq
+      have := hsp.1 q0 hq0
+      simp; omega
+    have flatc : ∀ (a b : Int) (r : List ITok), ¬ (b < a) → ¬ (a < 0) →
+        desigPaths root top f (ps.flatMap (fun p => (List.range' a.toNat (b.toNat + 1 - a.toNat)).map (fun k => p ++ [k]))) r =
+          .ok (ps', t') → Spread m ps' ∧ (isDesg toks = true → ∀ q ∈ ps', m + 2 ≤ q.length) := by
+      intro a b r hab ha hh
+      refine longer hh (hsp.flatMap_range _ _ (by omega)) (fun q hq => ?_)
+      simp only [List.mem_flatMap, List.mem_map] at hq
+      obtain ⟨q0, hq0, k, _, rfl⟩ := hq
+      have := hsp.1 q0 hq0
+      simp; omega
+    have base : Spread m ps ∧ (isDesg toks = true → ∀ q ∈ ps, m + 2 ≤ q.length) → True := fun _ => trivial
+    unfold desigPaths at h
+    split at h
+    · -- .dot
+      split at h
+      · split at h
+        · split at h
+          · rename_i mp hm _
+            cases mp with
+            | nil => exact absurd hm (findMember_ne_nil _ _)
+            | cons k mp' => exact mapc _ _ (by simp) h
+          · cases h
+        · split at h <;> cases h
+      · cases h
+    · -- .idx
+      split at h
+      · split at h
+        · cases h
+        · exact mapc _ _ (by simp) h
+      · split at h
+        · cases h
+        · exact mapc _ _ (by simp) h
+      · cases h
+    · -- .range
+      split at h
+      · split at h
+        · cases h
+        · rename_i hc
+          exact flatc _ _ _ (by omega) (by omega) h
+      · split at h
+        · cases h
+        · rename_i hc
+          exact flatc _ _ _ (by omega) (by omega) h
+      · cases h
+    · cases h; exact ⟨hsp, fun hd => by simp [isDesg] at hd⟩
+    · rename_i hn1 hn2 hn3 hn4
+      cases h
+      refine ⟨hsp, fun hd => ?_⟩
+      exfalso
+      cases toks with
+      | nil => simp [isDesg] at hd
+      | cons t r => cases t <;> simp [isDesg] at hd <;> first | exact hn1 _ _ rfl | exact hn2 _ _ rfl | exact hn3 _ _ _ rfl
+
+theorem siblings_false_of_spread {m : Nat} {ps : List (List Nat)} (hs : Spread m ps) (hl : ∀ q ∈ ps, m + 2 ≤ q.length) :
+    siblings ps = false := by
+  obtain ⟨_, q1, hq1, q2, hq2, hne⟩ := hs
+  cases ps with
+  | nil => simp at hq1
+  | cons p0 rest =>
+    cases hsb : siblings (p0 :: rest) with
+    | false => rfl
+    | true =>
+      exfalso
+      simp only [siblings, List.all_eq_true, beq_iff_eq] at hsb
+      have e1 := hsb q1 hq1
+      have e2 := hsb q2 hq2
+      apply hne
+      have t1 : q1.take (m+1) = q1.dropLast.take (m+1) := by
+        rw [List.dropLast_eq_take, List.take_take]; congr 1; have := hl q1 hq1; omega
+      have t2 : q2.take (m+1) = q2.dropLast.take (m+1) := by
+        rw [List.dropLast_eq_take, List.take_take]; congr 1; have := hl q2 hq2; omega
+      rw [t1, t2, e1, e2]
+
+theorem spread_range (p : List Nat) (b n : Nat) (hn : 2 ≤ n) : Spread p.length ((List.range' b n).map (fun k => p ++ [k])) := by
+  refine ⟨fun q hq => ?_, p ++ [b], ?_, p ++ [b+1], ?_, ?_⟩
+  · simp only [List.mem_map] at hq
+    obtain ⟨k, _, rfl⟩ := hq
+    simp
+  · simp only [List.mem_map, List.mem_range']; exact ⟨b, ⟨0, by omega, by simp⟩, rfl⟩
+  · simp only [List.mem_map, List.mem_range']; exact ⟨b+1, ⟨1, by omega, by simp⟩, rfl⟩
+  · have h1 : (p ++ [b]).take (p.length + 1) = p ++ [b] := List.take_of_length_le (by simp)
+    have h2 : (p ++ [b+1]).take (p.length + 1) = p ++ [b+1] := List.take_of_length_le (by simp)
+    rw [h1, h2]
+    intro h
+    have := List.append_cancel_left h
+    simp only [List.cons.injEq, and_true] at this
+    omega
+
+/-- a range designator over several elements followed by a further designator: the run enters the region `WideRange` -/
+theorem afterDesg_wide_dirty {g : Nat} {root : Ty} {top : Bool} {obj : Init} {fl : Flags} {f : Nat} {p : List Nat} {b n : Nat}
+    {toks : List ITok} {res : Result} (hn : 2 ≤ n) (hd : isDesg toks = true)
+    (hr : afterDesg g root top obj fl (desigPaths root top f ((List.range' b n).map (fun k => p ++ [k])) toks) = .ok res) :
+    res.fl.clean = false := by
   unfold afterDesg at hr
-  obtain ⟨⟨ps', t'⟩, hd, hr⟩ := bind_eq_ok hr
-  have := (desigPaths_inv root top f ps toks ps' t' hd).1
-  exact initItem_wide_dirty (by simp only; omega) hr
+  obtain ⟨⟨ps', t'⟩, hdp, hr⟩ := bind_eq_ok hr
+  obtain ⟨hs, hl⟩ := desigPaths_spread root top p.length f _ toks ps' t' hdp (spread_range p b n hn)
+  have h1 := (desigPaths_inv root top f _ toks ps' t' hdp).1
+  simp only [List.length_map, List.length_range'] at h1
+  exact initItem_wide_dirty (by omega) (siblings_false_of_spread hs (hl hd)) hr
 
 theorem afterDesg_xover_dirty {g : Nat} {root : Ty} {top : Bool} {obj : Init} {fl : Flags} {f : Nat} {p : List Nat} {c : Init}
     {k : Nat} {s : List Nat} {toks : List ITok} {res : Result} (hg : getAt obj p = some c) (ha : hasAggExpr c = true)
